@@ -278,3 +278,71 @@ Lemma resume_call_delivered_complete F opts c rs p nd ty :
   resolve F 0 p = Some nd -> n_kind nd = KComp ty -> executes F 0 p = true ->
   exists r, In r rs /\ r_path r = p /\ r_items r = Some (spec_delivered opts p ty).
 Proof. intros HU H. rewrite resume_call_eq in H. exact (run_call_delivered_complete F opts rs p nd ty HU H). Qed.
+
+(* ------------------------------------------------------------------ old behaviour refuted *)
+(* graph node 2 sits behind a branch that is not taken; the option designates an unknown node
+   inside it *)
+Definition v0F : forest :=
+  [ [mkNode 1 (KComp 6) true true; mkNode 2 (KSub 1%nat) true false];
+    [mkNode 1 (KComp 6) true true] ].
+Definition v0Opts : list copt := [ mkOpt [(6, 1)] [] [[2; 9]] ].
+
+Lemma bad_designation_errors_v0_refuted_l :
+  ~ (forall F opts,
+       keys_unique F -> well_nested F -> F <> [] -> Forall uniform opts ->
+       (fails (run_call_v0 F opts) <->
+        exists o q, In o opts /\ In q (o_paths o) /\ bad_path F o 0 q = true)).
+Proof.
+  intros H.
+  assert (HU : keys_unique v0F).
+  { intros gi g Hg. destruct gi as [|[|gi]]; simpl in Hg; try (destruct gi; discriminate);
+      inversion Hg; subst; simpl; repeat constructor; simpl; intuition discriminate. }
+  assert (HW : well_nested v0F).
+  { intros gi g nd gj Hg Hin Hk.
+    destruct gi as [|[|gi]]; simpl in Hg; try (destruct gi; discriminate); inversion Hg; subst;
+      simpl in Hin; intuition; subst; simpl in Hk; inversion Hk; subst; simpl; lia. }
+  assert (HF : v0F <> []) by discriminate.
+  assert (HO : Forall uniform v0Opts).
+  { repeat constructor. intros it Hit. simpl in Hit. destruct Hit as [<-|[]]. reflexivity. }
+  destruct (H v0F v0Opts HU HW HF HO) as [_ Hbad].
+  assert (Hf : fails (run_call_v0 v0F v0Opts)).
+  { apply Hbad. exists (mkOpt [(6, 1)] [] [[2; 9]]), [2; 9]. simpl. auto. }
+  eapply Hf. vm_compute. reflexivity.
+Qed.
+
+(* the repaired code rejects that call *)
+Lemma v0_witness_rejected : fails (run_call v0F v0Opts).
+Proof. intros a. vm_compute. discriminate. Qed.
+
+(* bad designations and resumed calls *)
+Lemma resume_call_fails_iff F opts c :
+  keys_unique F -> well_nested F -> F <> [] -> Forall uniform opts ->
+  (fails (resume_call F opts c) <->
+   exists o q, In o opts /\ In q (o_paths o) /\ bad_path F o 0 q = true).
+Proof. intros HU HW HF HO. rewrite resume_call_eq. apply run_call_fails_iff; assumption. Qed.
+
+(* F-C16b: with a passthrough taken for a sub graph, a component option designated to it and a
+   path below it were accepted by the extraction of the graph they start in *)
+Definition v0bG : graph := [mkNode 1 (KComp 6) true true; mkNode 3 (KComp 0) false true].
+Definition v0bOpts : list copt := [ mkOpt [(6, 1)] [] [[3]]; mkOpt [(6, 2)] [] [[3; 1]] ].
+
+Lemma extract_option_v0b_refuted_l :
+  ~ (forall g opts,
+       NoDup (map n_key g) ->
+       (fails (extract_option_v0b g opts) <->
+        exists o q, In o opts /\ In q (o_paths o) /\ level_bad g o q = true)).
+Proof.
+  intros H.
+  assert (HN : NoDup (map n_key v0bG)).
+  { simpl. repeat constructor; simpl; intuition discriminate. }
+  destruct (H v0bG v0bOpts HN) as [_ Hbad].
+  assert (Hf : fails (extract_option_v0b v0bG v0bOpts)).
+  { apply Hbad. exists (mkOpt [(6, 2)] [] [[3; 1]]), [3; 1]. simpl. auto. }
+  eapply Hf. vm_compute. reflexivity.
+Qed.
+
+(* the repaired extraction rejects both options *)
+Lemma v0b_witness_rejected :
+  fails (extract_option v0bG [mkOpt [(6, 1)] [] [[3]]] []) /\
+  fails (extract_option v0bG [mkOpt [(6, 2)] [] [[3; 1]]] []).
+Proof. split; intros a; vm_compute; discriminate. Qed.
